@@ -367,6 +367,13 @@ pub extern "sysv64" fn memory_read_word(areas: *mut MemoryAreas, addr: u16) -> u
   (high << 8) | low
 }
 
+/// A block of ROM code that started at `start` ends before the instruction at
+/// `addr` when that instruction lies in another 16KB ROM region (it may be
+/// banked differently) or could reach into one.
+pub fn rom_block_must_end(start: usize, addr: usize) -> bool {
+  addr != start && (!can_dynarec(addr) || (addr >> 14) != (start >> 14))
+}
+
 pub fn can_dynarec(addr: usize) -> bool {
   // An instruction starting in the last two bytes of a ROM region may have its
   // operands in the next region, which can be banked differently (or not be
